@@ -55,6 +55,7 @@ def norm(s):
 def fn_props_of_unit(gen):
     """map function display name -> set(props), from extraction tags and `// props:` comments"""
     m = {}
+    aliases = None
     unit_props = set(gen.meta.get('props', []))
     for it in gen.items:
         if 'generated' in it:
@@ -65,9 +66,18 @@ def fn_props_of_unit(gen):
             m[anchor.split()[1]] = {'props': props, 'item': it}
         elif anchor.startswith('impl') or anchor.startswith('trait'):
             ty = impl_type_name(anchor)
+            alias = None
+            if aliases is None:
+                aliases = impl_index_aliases(gen)
+            for ln in range(it['gen_lines'][0], it['gen_lines'][1] + 1):
+                if ln in aliases:
+                    alias = aliases[ln]
+                    break
             for fn in it['functions']:
                 p = set(it['fn_props'].get(fn) or []) or props
                 m['%s::%s' % (ty, fn)] = {'props': p, 'item': it}
+                if alias:
+                    m['%s::%s' % (alias, fn)] = {'props': p, 'item': it, 'display': '%s::%s' % (ty, fn)}
     # text blocks
     cur = None
     for i, (line, org) in enumerate(zip(gen.lines, gen.origin)):
@@ -86,6 +96,50 @@ def fn_props_of_unit(gen):
     return m
 
 
+def impl_index_aliases(gen):
+    """Verus names the functions of an impl for a primitive / unnameable type `mod::path::impl&%N::f`,
+    N being the 0-based position of the impl block among the impl blocks of its module.
+    Returns {gen_line_of_impl_header: 'mod::path::impl&%N'}."""
+    from .rustsrc import code_mask
+    text = gen.text()
+    code = code_mask(text)
+    res = {}
+    stack = []          # (name, depth when opened)
+    counters = {}
+    depth = 0
+    line = 1
+    i = 0
+    n = len(text)
+    pending_mod = None
+    while i < n:
+        ch = text[i]
+        if ch == '\n':
+            line += 1
+        if code[i]:
+            if ch == '{':
+                depth += 1
+                if pending_mod is not None:
+                    stack.append((pending_mod, depth))
+                    pending_mod = None
+            elif ch == '}':
+                if stack and stack[-1][1] == depth:
+                    stack.pop()
+                depth -= 1
+            elif ch == ';':
+                pending_mod = None
+            elif (i == 0 or not (text[i - 1].isalnum() or text[i - 1] == '_')):
+                m = re.match(r'mod\s+([A-Za-z_][A-Za-z0-9_]*)\s*\{', text[i:i + 80])
+                if m:
+                    pending_mod = m.group(1)
+                elif re.match(r'impl\b', text[i:i + 5]) and depth == (stack[-1][1] if stack else 1):
+                    path = '::'.join(x[0] for x in stack)
+                    k = counters.get(path, 0)
+                    counters[path] = k + 1
+                    res[line] = (path + '::' if path else '') + 'impl&%%%d' % k
+        i += 1
+    return res
+
+
 def impl_type_name(anchor):
     a = anchor
     if a.startswith('trait'):
@@ -100,6 +154,8 @@ def impl_type_name(anchor):
 
 def lookup(fnmap, table_name):
     """table_name like `mod::Type::method` or `fn`; find the entry by longest suffix"""
+    if table_name in fnmap:
+        return table_name
     parts = table_name.split('::')
     for k in (2, 1):
         if len(parts) >= k:
@@ -237,6 +293,7 @@ def check_property(prop, reg, args, seed):
             if prop not in props:
                 continue
             item = fnmap[key].get('item')
+            key = fnmap[key].get('display', key)
             ob = {'id': '%s/%s' % (u, key), 'unit': u, 'function': key, 'backend': 'verus+z3', 'ms': round(tv['ms'], 1),
                   'status': 'discharged' if tv['success'] else 'failed', 'kind': 'lemma' if item is None else 'function-contract'}
             if item:
